@@ -21,6 +21,8 @@ type Solver struct {
 	timeout time.Duration
 	log     io.Writer
 	dead    bool
+	alt     *Solver // portfolio partner: receives every command, answers when this one says unknown
+	answer  *Solver // which process produced the last sat answer (for get-value)
 }
 
 type SolverStats struct {
@@ -30,6 +32,7 @@ type SolverStats struct {
 	Unknown  int64
 	NanosZ3  int64
 	NanosCVC int64
+	Fallbacks int64
 }
 
 var gStats SolverStats
@@ -48,7 +51,25 @@ func solverArgv(kind string, timeoutMs int) []string {
 	panic("unknown solver " + kind)
 }
 
+// NewSolver starts a solver; kind "portfolio" = z3 5.1 (bit-vectors, short limit) backed by cvc5 with
+// int-blasting (full limit) for the arithmetic kernels where one of the two stalls.
 func NewSolver(kind string, timeout time.Duration) (*Solver, error) {
+	if kind == "portfolio" {
+		short := timeout / 6
+		if short < 5*time.Second {
+			short = 5 * time.Second
+		}
+		p, err := NewSolver("z3-new", short)
+		if err != nil {
+			return nil, err
+		}
+		a, err := NewSolver("cvc5-int", timeout)
+		if err != nil {
+			return nil, err
+		}
+		p.alt = a
+		return p, nil
+	}
 	argv := solverArgv(kind, int(timeout/time.Millisecond))
 	cmd := exec.Command(argv[0], argv[1:]...)
 	in, err := cmd.StdinPipe()
@@ -81,6 +102,9 @@ func (s *Solver) prelude() {
 }
 
 func (s *Solver) Send(text string) {
+	if s.alt != nil {
+		s.alt.Send(text)
+	}
 	if s.dead {
 		return
 	}
@@ -94,15 +118,23 @@ func (s *Solver) Send(text string) {
 
 // Reset clears all assertions and declarations.
 func (s *Solver) Reset() {
-	if strings.HasPrefix(s.kind, "cvc5") {
+	if s.alt != nil {
+		s.alt.Reset()
+		alt := s.alt
+		s.alt = nil
 		s.Send("(reset)\n")
-	} else {
-		s.Send("(reset)\n")
+		s.prelude()
+		s.alt = alt
+		return
 	}
+	s.Send("(reset)\n")
 	s.prelude()
 }
 
 func (s *Solver) Close() {
+	if s.alt != nil {
+		s.alt.Close()
+	}
 	if s.cmd != nil && s.cmd.Process != nil {
 		s.in.Close()
 		s.cmd.Process.Kill()
@@ -118,6 +150,32 @@ func (s *Solver) readLine() (string, error) {
 
 // Check runs (check-sat) and returns "sat", "unsat" or "unknown" (also for errors/timeouts).
 func (s *Solver) Check() string {
+	if s.alt == nil {
+		s.answer = s
+		return s.check1()
+	}
+	alt := s.alt
+	s.alt = nil // do not mirror the check-sat itself
+	r := s.check1()
+	s.alt = alt
+	s.answer = s
+	if r == "unknown" {
+		r = alt.check1()
+		s.answer = alt
+		atomic.AddInt64(&gStats.Fallbacks, 1)
+	}
+	return r
+}
+
+// Dead reports whether no process of the portfolio can answer any more.
+func (s *Solver) Dead() bool {
+	if s.alt != nil {
+		return s.dead && s.alt.dead
+	}
+	return s.dead
+}
+
+func (s *Solver) check1() string {
 	if s.dead {
 		return "unknown"
 	}
@@ -187,6 +245,14 @@ func (s *Solver) Check() string {
 
 // GetValues returns model values for the named constants (after a sat answer).
 func (s *Solver) GetValues(vars []*Term) map[string]uint64 {
+	if s.answer != nil && s.answer != s {
+		return s.answer.GetValues(vars)
+	}
+	if s.alt != nil {
+		alt := s.alt
+		s.alt = nil
+		defer func() { s.alt = alt }()
+	}
 	res := map[string]uint64{}
 	if len(vars) == 0 || s.dead {
 		return res
@@ -234,6 +300,9 @@ func (s *Solver) GetValues(vars []*Term) map[string]uint64 {
 		}
 	}
 	txt := buf.String()
+	if os.Getenv("GOSYM_DEBUG") == "2" {
+		fmt.Fprintf(logw, "get-value raw: %q\n", txt)
+	}
 	if strings.Contains(txt, "(error") {
 		fmt.Fprintf(logw, "SOLVER-ERROR get-value: %s\n", txt)
 		return res
